@@ -307,7 +307,10 @@ class StmtMixin:
             raise Unsupported(f"{self.where(node)}: store to undeclared field {cls}.{name}")
         decl, ty = ft
         self.on_store(st, o, name, v, node)
-        st.write(f"{decl}.{name}", self.as_ref(o, st), self.store_form(v, ty, st), sort_of_type(ty))
+        sv = self.store_form(v, ty, st)
+        st.write(f"{decl}.{name}", self.as_ref(o, st), sv, sort_of_type(ty))
+        if decl == "ast":
+            self.mark_nodeowned(st, sv)
         return [st]
 
     def on_store(self, st, o, name, v, node):
@@ -366,6 +369,9 @@ class StmtMixin:
         return states
 
     def delitem(self, o, i, st, node):
+        if o.k in ("ref", "val") and o.cls and self.repo.has_class(o.cls):
+            recv = o if o.k == "ref" else self.unbox(o.t, o.cls, st)
+            return [x for x, _ in self.call_method(recv, "__delitem__", [i], {}, st, node)]
         if o.k == "ref" and o.cls == "list":
             seq = st.items(o.t)
             n = z3.Length(seq)
